@@ -36,7 +36,7 @@ def _emit_worlds(maxdim: int) -> list[dict]:
     return ws
 
 
-def _events(w: dict, margin: int) -> list[dict]:
+def _events(w: dict, margin: int, idt: str = "") -> list[dict]:
     ev = [{"a": "GridSize"}, {"a": "Kinds"}]
     for kind in W.kinds_of(w):
         shape = W.kind_shape(w, kind)
@@ -56,7 +56,7 @@ def _events(w: dict, margin: int) -> list[dict]:
         import itertools
         for idx in itertools.product(*[range(-margin, s + margin) for s in shape]):
             nat = list(idx) if w["conv"] in ("cf1d", "cf2d", "shoc_simple") else [kind] + list(idx)
-            ev.append({"a": "Ravel", "native": nat})
+            ev.append(dict({"a": "Ravel", "native": nat}, **({"idt": idt} if idt else {})))
     return ev
 
 
@@ -114,8 +114,15 @@ def cases(tier: str, seed: int) -> list[dict]:
         m = W.random_mesh(rng, rng.randint(2, 7), rng.randint(2, 6))
         w = _mesh_world(None, rng.choice(["absent", "implied", "declared", "declared-transposed"]), mesh=m)
         out.append({"src": "rand", "w": w, "events": _events(w, 3)})
+    # grids with more cells than a byte can count, native indexes given as narrow numpy integers (as read from a table of
+    # stations stored as bytes / shorts)
+    for conv, ny, nx, idt in (("cf2d", 12, 16, "int8"), ("shoc_standard", 9, 15, "int8"), ("cf1d", 14, 11, "int16")):
+        w = W.counts_world(conv, ny=ny, nx=nx)
+        out.append({"src": "rand", "w": w, "events": _events(w, 2, idt)})
     vias = ["memory", "file", "memory", "dask", "memory", "emsopen", "memory"]      # how the dataset is held (viafile.hold)
     for k, c in enumerate(out):
+        if k % 3 == 1:
+            c["w"] = dict(c["w"], wind_first=True)      # see execute
         c["w"] = dict(c["w"], via=vias[k % len(vias)])
         if c["w"]["conv"] in ("cf1d", "cf2d") and k % 2 == 0 and c["w"]["via"] != "emsopen":
             c["w"]["bind"] = "explicit"      # convention made by hand with latitude= / longitude= (worlds.bind)
@@ -133,15 +140,35 @@ def execute(case: dict) -> dict:
     ds = viafile.hold_ds(w, W.build(w))
     conv = W.bind(w, ds)
     kind_enum = type(next(iter(conv.grid_kinds)))
+    if w.get("wind_first"):
+        # earlier on, the same convention object was used to wind per-cell-per-layer arrays whose linear dimension comes
+        # FIRST (what winding returns is C03's subject; here it is history)
+        import numpy
+        import xarray
+        for kind in W.kinds_of(w):
+            size = 1
+            for s_ in W.kind_shape(w, kind):
+                size *= s_
+            try:
+                conv.wind(xarray.DataArray(numpy.zeros((size, 2)), dims=["index", "layer"]), grid_kind=kind_enum(kind), axis=0)
+                conv.wind(xarray.DataArray(numpy.zeros((size, 2)), dims=["cellnum", "layer"]), grid_kind=kind_enum(kind), linear_dimension="cellnum")
+            except Exception:
+                pass
     rec = {"tid": case["tid"], "src": case["src"],
            "w": {k: w[k] for k in ("conv", "ny", "nx", "nface", "nnode", "nedge")}, "events": []}
     for e in case["events"]:
         e = dict(e)
         a = e["a"]
         if a == "GridSize":
-            e["obs"] = {kind_name(k): as_int(v) for k, v in conv.grid_size.items()}
+            try:
+                e["obs"] = {kind_name(k): as_int(v) for k, v in conv.grid_size.items()}
+            except Exception:
+                e["obs"] = {k: -1 for k in W.kinds_of(w)}       # (no sizes to be had: reported as sizes of -1)
         elif a == "Kinds":
-            e["obs"] = sorted(kind_name(k) for k in conv.grid_kinds)
+            try:
+                e["obs"] = sorted(kind_name(k) for k in conv.grid_kinds)
+            except Exception:
+                e["obs"] = []
         elif a == "Wind" and e.get("api") == "unravel_index":
             e["obs"] = outcome(lambda: native_index(w["conv"], conv.unravel_index(e["n"], grid_kind=kind_enum(e["kind"]))))
         elif a == "Wind":
@@ -163,6 +190,9 @@ def execute(case: dict) -> dict:
             e["obs"] = outcome(lambda: native_index(w["conv"], conv.wind_index(e["n"])))
         elif a == "Ravel":
             nat = e["native"]
+            if e.get("idt"):
+                import numpy
+                nat = [numpy.dtype(e["idt"]).type(v) if isinstance(v, int) else v for v in nat]
             arg = tuple(nat) if w["conv"] in ("cf1d", "cf2d", "shoc_simple") else (kind_enum(nat[0]), *nat[1:])
             e["obs"] = outcome(lambda: as_int(conv.ravel_index(arg)))
         rec["events"].append(e)
